@@ -98,7 +98,9 @@ PROPS = {
              "(quick 5, thorough 7; plus an 8-symbol alphabet to length 6) x anchors {none,|p,p|,|p|,||h p,||h p|} x rule hosts x a "
              "138-URL universe (3 schemes x 6 hosts x paths), engine per-rule matcher vs the O-pattern reference matcher; random part: "
              "longer vocabulary patterns with rule-derived URLs; scheme patterns; /re/ rules vs the regex crate; weakening relations on "
-             "all spellings (oracle-free). non-trivial = reference says 'match' (or, for relations, the stronger rule matches some URL); "
+             "all spellings (oracle-free); company: a pattern with 1-3 textual relatives (extended/shortened/edited, same anchors) in an "
+             "optimised engine vs the OR of the per-rule references (reported only when every single rule agrees with its reference). "
+             "non-trivial = reference says 'match' (or, for relations, the stronger rule matches some URL); "
              "distinct = hash of (line, url) (a bounded sample of the exhaustive part's matches is hashed; all are counted in observations).",
         assumptions=["rule options are default (all network types, both parties); options are judged by C03",
                      "where ABP and uBO differ on ||host ending mid-label the uBO/implementation-documented reading is the reference"],
@@ -113,7 +115,9 @@ PROPS = {
              "the URL, so options decide. evaluation = per-rule matcher and single-rule engine vs the O-options interpreter; non-trivial = "
              "reference says the rule applies; distinct = hash of (line, url, source, type) (bounded sample per rule; all counted in observations). "
              "neighbours: engines (optimised 3 in 4) of 2-3 plain or /regex/ rules sharing their index token with different type/party/"
-             "important/match-case options; the verdict for each rule's URL (both letter cases) must be the OR of the per-rule references.",
+             "important/match-case options; the verdict for each rule's URL (both letter cases) must be the OR of the per-rule references. "
+             "A seventh rule kind covers `$removeparam` (implied types document/subdocument/xhr, observed through the rewrite), and every "
+             "single-rule engine is asked again after a serialization round trip.",
         assumptions=["an absent/unparseable initiator cannot satisfy an inclusion list and vacuously satisfies an exclusion-only list (ABP)",
                      "exceptions apply to document requests without $document (uBO-style, as documented in the code)",
                      "`|ws://` covers both websocket schemes here; the ws-vs-wss distinction is judged (and recorded) under C02"],
@@ -146,7 +150,8 @@ PROPS = {
              "deserialize(buffer serialized by another engine under a different tag set)} with repeated / duplicate / never-used tags); after "
              "every operation tag_exists(t) is compared with the set model for 8 tags and a 3-request verdict battery is compared with O-scan "
              "using active(rule) <=> tag in model set. non-trivial = some tagged rule matched a battery request both while active and while "
-             "inactive during the history; distinct = hash of (list, history).",
+             "inactive during the history; distinct = hash of (list, history). incr: the same model on a live Blocker receiving the tagged rules "
+             "one add_filter at a time between tag operations, battery vs O-scan over the rules added so far.",
         assumptions=["tag combined with redirect / removeparam / generichide is outside the stated categories and is not generated"],
         floors=(3_000_000, 30_000, 30_000_000, 300_000),
     ),
@@ -229,7 +234,8 @@ PROPS = {
     ),
     "C15": simple(
         rule="case = (1-9 csp rules / exceptions with directives, blanket exceptions, duplicates, domain=, tag=, party options over several "
-             "pattern shapes incl. empty pattern; a permuted copy of the list built with the opposite optimise flag; 4 requests of all types, "
+             "pattern shapes incl. empty pattern; a permuted copy of the list built with the opposite optimise flag whose tag set is reached by "
+             "enabling a superset and disabling the surplus; 4 requests of all types, "
              "with/without source). evaluation = set(split(csp)) of both engines vs the reference set; permuted engine must agree; non-document "
              "types must give no policy. non-trivial = >= 2 matching csp rules or >= 1 matching csp exception; distinct = hash of (rules, tags, request).",
         assumptions=["directives are compared as a set split on ','; generated directives contain no comma"],
